@@ -354,12 +354,14 @@ def strategy():
         st.fixed_dictionaries({"base": gen.desc(alphabet="31m[4;0", max_runs=3, max_len=3)}),
         st.fixed_dictionaries({"base": gen.desc_sized(alphabet="abc \n", max_runs=4, max_len=3)}),
         st.fixed_dictionaries({"base_str": gen.text("abc \n", 0, 4)}),
+        # characters that take no column or two (runs made only of combining marks or zero-width spaces included)
+        st.fixed_dictionaries({"base": gen.desc(alphabet="ab\u0301\u0324\u200b\ufe0f\u4e2d\U0001f600", max_runs=4, max_len=2)}),
     )
     rest = st.fixed_dictionaries(
         {
             "layers": st.lists(layer_strategy(), min_size=1, max_size=3),
             "remove": st.one_of(st.none(), st.lists(st.sampled_from(list(KINDS)), max_size=3, unique=True)),
-            "new_str": st.one_of(st.none(), gen.text("xyz", 0, 3)),
+            "new_str": st.one_of(st.none(), gen.text("xyz", 0, 3), gen.plain_str(4)),
             "obs": gen.OBS,
         }
     )
